@@ -179,7 +179,8 @@ func (w *mxWorld) genMxCase(r *rand.Rand) mxCaseSpec {
 		return mxCaseSpec{"node_stake", chain.MsgNodeStake(chain.Key(k), chains(), stake, url(), out, nil), signer, rel, ent, decl}
 	case 2, 3: // edit stake
 		type tgt struct{ node, out int }
-		ts := []tgt{{w.custNode, -1}, {w.ncNode, w.ncOut}, {w.nodes[0], -1}, {w.nodes[1], -1}}
+		// the last two are jailed at genesis (a jailed node is still staked: its operator may edit it)
+		ts := []tgt{{w.custNode, -1}, {w.ncNode, w.ncOut}, {w.nodes[0], -1}, {w.nodes[1], -1}, {w.jailed, -1}, {w.jailedNC, w.jailOut}}
 		t := ts[r.Intn(len(ts))]
 		followUp := false
 		if w.recentUnstake[0] != 0 && r.Intn(3) == 0 {
